@@ -489,6 +489,93 @@ theorem csv_roundtrip_regression (pts : List (List V × List V)) (labelFirst : B
       · simp [← hi, ← ho]
       · simp [← ho]
 
+/-- **LibSVM round trip, regression (token level).**  The records `exportSparseData` writes for
+dense inputs — per element the label and `index:value` for the indices `1 … d` — are read back
+by the (repaired = current, the indices are sorted) importer logic as the same vectors with the same
+labels, for every batch size argument, when `highestIndex = d` is passed and the vectors fit the
+allocation limit. -/
+theorem libsvm_roundtrip {V : Type} (zero : V) (labelInt : V → Option Int) (pts : List (V × List V)) (d bs limit : Nat)
+    (hd : ∀ p ∈ pts, p.2.length = d) (hpos : 0 < d) (hne : pts ≠ [])
+    (hlimit : (initBatches pts.length bs).foldl max 1 * d ≤ limit) :
+    importRepaired zero labelInt { sparse := false, cls := false, dims := d, bs := bs, allocLimit := limit }
+        (pts.map fun p => ⟨p.1, enumFrom' 1 p.2⟩) =
+      .ok { shape := some d, lshape := some 1, batches := initBatches pts.length bs,
+            rows := pts.map (fun p => Row.dense p.2), labels := .reg (pts.map fun p => [p.1]) } := by
+  have hvne : ∀ p ∈ pts, p.2 ≠ [] := by
+    intro p hp h; have := hd p hp; rw [h] at this; simp at this; omega
+  -- facts about the exported records
+  have hsorted : (pts.map fun p => (⟨p.1, enumFrom' 1 p.2⟩ : Rec V)).all recSorted = true := by
+    rw [List.all_eq_true]; intro r hr
+    obtain ⟨p, _, rfl⟩ := List.mem_map.mp hr
+    exact enum_sorted p.2 1
+  have hmax : maxIndexLast (pts.map fun p => (⟨p.1, enumFrom' 1 p.2⟩ : Rec V)) = d := by
+    apply Nat.le_antisymm
+    · apply maxIndexLast_le
+      intro r hr q hq
+      obtain ⟨p, hp, rfl⟩ := List.mem_map.mp hr
+      obtain ⟨x, hx⟩ := enum_last p.2 1 (hvne p hp)
+      simp only at hq; rw [hx] at hq
+      have := hd p hp
+      simp only [Option.some.injEq] at hq; rw [← hq]; simp; omega
+    · cases hp0 : pts with
+      | nil => exact absurd hp0 hne
+      | cons p0 t =>
+        have hp : p0 ∈ pts := by rw [hp0]; simp
+        obtain ⟨x, hx⟩ := enum_last p0.2 1 (hvne p0 hp)
+        have := maxIndexLast_ge (pts.map fun p => (⟨p.1, enumFrom' 1 p.2⟩ : Rec V)) ⟨p0.1, enumFrom' 1 p0.2⟩
+          (List.mem_map.mpr ⟨p0, hp, rfl⟩) _ hx
+        have hd0 := hd p0 hp
+        rw [hp0] at this
+        simp only at this; omega
+  have hzero : hasZeroFirst (pts.map fun p => (⟨p.1, enumFrom' 1 p.2⟩ : Rec V)) = false := by
+    unfold hasZeroFirst
+    rw [List.any_eq_false]
+    intro r hr
+    obtain ⟨p, hp, rfl⟩ := List.mem_map.mp hr
+    obtain ⟨x, hx⟩ := enum_head p.2 1 (hvne p hp)
+    simp [hx]
+  unfold importRepaired
+  simp only [hsorted, Bool.not_true, Bool.false_eq_true, if_false, Bool.false_and, hmax, Nat.max_self, hzero]
+  rw [if_neg (by omega)]
+  simp only [labelsOf, Bool.false_eq_true, if_false]
+  unfold build
+  simp only [vecSize, deltaOf, Bool.false_eq_true, if_false, Nat.add_zero, List.length_map, Bool.not_false,
+    Bool.true_and, List.map_map]
+  rw [if_neg (by simpa using hlimit)]
+  have hw : (List.map (writes 1 ∘ fun p => (⟨p.1, enumFrom' 1 p.2⟩ : Rec V)) pts) = pts.map fun p => enumFrom' 0 p.2 := by
+    apply List.map_congr_left
+    intro p _
+    exact writes_enum p.1 p.2 0
+  rw [hw]
+  have hoob : oobOf false d (pts.map fun p => enumFrom' 0 p.2) = none := by
+    apply oobOf_none
+    intro ws hws w hw'
+    obtain ⟨p, hp, rfl⟩ := List.mem_map.mp hws
+    -- indices of enumFrom' 0 vs are below vs.length = d
+    have hlt : ∀ (vs : List V) (o : Nat), ∀ w ∈ enumFrom' o vs, w.1 < o + vs.length := by
+      intro vs
+      induction vs with
+      | nil => intro o w hw; simp [enumFrom'] at hw
+      | cons v t ih =>
+        intro o w hw
+        simp only [enumFrom', List.mem_cons] at hw
+        rcases hw with rfl | hw
+        · simp
+        · have := ih (o + 1) w hw; simp only [List.length_cons]; omega
+    have := hlt p.2 0 w hw'
+    rw [hd p hp] at this; omega
+  rw [hoob]
+  simp only [finish, Bool.false_eq_true, if_false, List.map_map, if_true]
+  have hrows : List.map ((fun ws => Row.dense (denseRow zero d ws)) ∘ fun p => enumFrom' 0 p.snd) pts
+      = List.map (fun p => Row.dense p.snd) pts := by
+    apply List.map_congr_left
+    intro p hp
+    simp only [Function.comp]
+    rw [← hd p hp, denseRow_enum]
+  rw [hrows]
+  rfl
+
+
 /-! ## the parsers never hang -/
 
 open SharkVerif.Peg in
